@@ -142,6 +142,7 @@ fn evaluate_do_block_expr(
         }
 
         // Evaluate the value (allow shadowing - no check for existing binding)
+        let first_new_cell = heap.borrow().next_index();
         let val = evaluate_ast(
             value,
             Rc::clone(&heap),
@@ -150,10 +151,14 @@ fn evaluate_do_block_expr(
             source.clone(),
         )?;
 
-        // Set lambda name if assigning a lambda
-        if let Value::Lambda(lambda_ptr) = val {
+        // A function is named by the assignment that creates it
+        if let Value::Lambda(lambda_ptr) = val
+            && lambda_ptr.index() >= first_new_cell
+        {
             let mut borrowed_heap = heap.borrow_mut();
-            if let Some(HeapValue::Lambda(lambda_def)) = borrowed_heap.get_mut(lambda_ptr.index()) {
+            if let Some(HeapValue::Lambda(lambda_def)) = borrowed_heap.get_mut(lambda_ptr.index())
+                && lambda_def.name.is_none()
+            {
                 lambda_def.name = Some(ident.clone());
             }
         }
@@ -426,6 +431,7 @@ pub fn evaluate_ast(
                 ));
             }
 
+            let first_new_cell = heap.borrow().next_index();
             let val = evaluate_ast(
                 value,
                 Rc::clone(&heap),
@@ -444,11 +450,14 @@ pub fn evaluate_ast(
                 ));
             }
 
-            // Set lambda name if assigning a lambda
-            if let Value::Lambda(lambda_ptr) = val {
+            // A function is named by the assignment that creates it
+            if let Value::Lambda(lambda_ptr) = val
+                && lambda_ptr.index() >= first_new_cell
+            {
                 let mut borrowed_heap = heap.borrow_mut();
                 if let Some(HeapValue::Lambda(lambda_def)) =
                     borrowed_heap.get_mut(lambda_ptr.index())
+                    && lambda_def.name.is_none()
                 {
                     lambda_def.name = Some(ident.clone());
                 }
